@@ -104,6 +104,13 @@ pub fn run(sim: &Sim, prop: &str, tier: Tier) -> Outcome {
     let mut ep0 = AnyLink::new(kind, Dev::new(sim, "e0", &w10, &w01));
     let mut ep1 = AnyLink::new(kind, Dev::new(sim, "e1", &w01, &w10));
 
+    // swarm (serial port): an OS-buffered port - what a sender writes reaches the peer only
+    // once a flush has succeeded
+    if kind == LinkKind::Serial && mode != MODE_SWEEP && sim.flag() {
+        w01.borrow_mut().hold_until_flush = true;
+        w10.borrow_mut().hold_until_flush = true;
+        sim.count("serial_output_held_until_flush");
+    }
     let mut planned: Vec<Packet> = Vec::new();
     let mut planned_back: Vec<Packet> = Vec::new();
     let mut long_burst: u32 = 0;
